@@ -81,10 +81,17 @@ def check(case):
         except P.exceptions.InitializationError:
             return None
         try:
-            for k in case["a"]:
-                a.add(k)
-            for k in (case["a"] if case["same"] else case["b"]):
-                b.add(k)
+            big = [256, 512, 65536, 2**24] if kind == "cbf" and len(case["b"]) % 2 == 0 else None
+            for i, k in enumerate(case["a"]):
+                if big:
+                    a.add(k, big[i % len(big)])
+                else:
+                    a.add(k)
+            for i, k in enumerate(case["a"] if case["same"] else case["b"]):
+                if big:
+                    b.add(k, big[(i + 1) % len(big)])
+                else:
+                    b.add(k)
             if diff_hash is None:
                 diff_hash = fn2("test", a.number_hashes) != firstsame_base("test", a.number_hashes)
             compatible = (a.number_bits, a.number_hashes) == (b.number_bits, b.number_hashes) and not diff_hash
